@@ -9,7 +9,7 @@
 EXTENDS XPools, XCatalog, Json, CSV, IOUtils, SequencesExt
 
 CONSTANTS Family, MaxNodes, UseCat, UseVal, CatIds,
-          ElemNames, AttrNames, TextVals, WithComment
+          ElemNames, AttrNames, AttrPrefixes, TextVals, WithComment
 
 VARIABLES doc, grow, part, expr
 vars == <<doc, grow, part, expr>>
@@ -96,7 +96,7 @@ NParts == Len(PoolSets)
 
 NewNodes(d) ==
     UNION { {Node("elem", n, "", "", p, "") : n \in ElemNames}
-            \cup {Node("attr", n, "", "", p, "1") : n \in AttrNames}
+            \cup {Node("attr", n, px, IF px = "" THEN "" ELSE "urn:" \o px, p, "1") : n \in AttrNames, px \in AttrPrefixes}
             \cup {Node("text", "", "", "", p, v) : v \in TextVals}
             \cup (IF WithComment THEN {Node("comment", "", "", "", p, "k")} ELSE {})
           : p \in Ids(d) }
